@@ -449,7 +449,7 @@ func (r *Report) replayModel(o *Obl, fr *FuncResult, rec *replayRec, path string
 		file := filepath.Join(cfg.tmp, "model.smt2")
 		os.WriteFile(file, []byte(q), 0o644)
 		for _, solver := range []string{"z3-new", "z3"} {
-			v, out, _ := runSolver(solver, file, 20, cfg.seed)
+			v, out, _ := runSolver(solver, file, 10, cfg.seed)
 			if v == "sat" {
 				vals, ok = parseValues(out, len(pl.terms))
 				if ok {
